@@ -233,29 +233,38 @@ theorem fixed_duration_under_flapping :
       = [{ level := 2, time := 20, dur := 10 }] := by
   decide
 
-/-! ### Restore (task restart): what is proved, and what is not the property -/
+/-! ### Restore (task restart) -/
 
-/-- After `restoreEventState` with a stored non-OK event `(level, time)` the state machine is in the relation with the
-track "at `level`, left OK at the stored event's time, last alert at the stored event's time": level and emission
-continue correctly from there (by `emit_iff`), and durations are measured from the stored event's TIME. -/
-theorem restore_resumes (c : Cfg) (hc : c.WF) (flap : FlapFn) (t : Int) (level : Nat) (stored : Int) (hl : level ≠ 0) :
-    Rel c (restoreEventState c flap t level stored) { level := level, leftOK := some stored, lastAlert := some stored } :=
-  restore_rel c hc flap t level stored hl
+/-- **A restart does not disturb the ID**: after `restoreEventState` from the ID's stored event state
+`(level, time, duration)` the state machine is in the simulation relation with the track "at `level`, last alert at the
+stored time, left OK `duration` before it" — which is the track the history spec had when that event was delivered
+(`advance`: `dur = t − leftOK`). By `emit_iff` / `emit_iff_batch` levels, emission and durations continue from there
+as if there had been no restart. (Which level a restart resumes at when the last delivered event is not the ID's
+current level — no-recoveries, flap suppression — is C08's subject.) -/
+theorem restore_resumes (c : Cfg) (hc : c.WF) (flap : FlapFn) (t : Int) (level : Nat) (stored dur : Int) (hl : level ≠ 0) :
+    Rel c (restoreEventState c flap t level stored dur)
+      { level := level, leftOK := some (stored - dur), lastAlert := some stored } :=
+  restore_rel c hc flap t level stored dur hl
 
-/-- Full-strength claim across a restart (NOT proved, and false of the code): the duration after a restore continues
-from the time the ID really left OK (`stored − storedDuration`). The code restarts it at the stored event's time
-(`restore_resumes`); witness `restore_restarts_duration`. Restart behaviour is the subject of C08; the harness of C01
-does not restart tasks. -/
-def restore_keeps_duration_stmt : Prop :=
-  ∀ (c : Cfg) (flap : FlapFn) (t : Int) (level : Nat) (stored storedDuration : Int), c.WF → level ≠ 0 →
-    Rel c (restoreEventState c flap t level stored)
-      { level := level, leftOK := some (stored - storedDuration), lastAlert := some stored }
+/-- The same claim for the code AS IT WAS before the second `fix:` commit of findings/C01.txt … -/
+def old_restore_keeps_duration_stmt : Prop :=
+  ∀ (c : Cfg) (flap : FlapFn) (t : Int) (level : Nat) (stored dur : Int), c.WF → level ≠ 0 →
+    Rel c (restoreEventStateOld c flap t level stored)
+      { level := level, leftOK := some (stored - dur), lastAlert := some stored }
 
-theorem restore_restarts_duration :
+/-- … was false: the old code resumed with "left OK at the stored event's time" … -/
+theorem old_restore_restarted_duration (c : Cfg) (hc : c.WF) (flap : FlapFn) (t : Int) (level : Nat) (stored : Int) (hl : level ≠ 0) :
+    Rel c (restoreEventStateOld c flap t level stored) { level := level, leftOK := some stored, lastAlert := some stored } :=
+  restore_rel_old c hc flap t level stored hl
+
+/-- … witness: WARNING since t=0, last event at t=20 (duration 20); restart; the next WARNING at t=30 reported 10
+(now 30). Replayed on the real code by corpus/C01/restart-duration.ops. -/
+theorem old_restore_witness :
     let c : Cfg := { warn := true, history := 2 }
-    -- WARNING since t=0, last event at t=20 (duration 20); restart; next WARNING at t=30 reports 10, not 30
-    (pointStep c (fun f _ _ => f) (restoreEventState c (fun f _ _ => f) 30 2 20) { t := 30, w := some true }).2
-      = some { level := 2, time := 30, dur := 10 } := by
+    (pointStep c (fun f _ _ => f) (restoreEventStateOld c (fun f _ _ => f) 30 2 20) { t := 30, w := some true }).2
+      = some { level := 2, time := 30, dur := 10 } ∧
+    (pointStep c (fun f _ _ => f) (restoreEventState c (fun f _ _ => f) 30 2 20 20) { t := 30, w := some true }).2
+      = some { level := 2, time := 30, dur := 30 } := by
   decide
 
 /-! ### Non-vacuity: the hypotheses are met, and the theorems say something on a concrete non-trivial history -/
